@@ -78,6 +78,7 @@ pub fn run_plan<T: HCfg>(plan: &Value, detail: u8, emit: &mut dyn FnMut(&Value))
     let mut forge_n = 0u64;
     // > 0: P2P sessions call advance_frame_with_wait_timeout(wait_ms) instead of advance_frame
     let wait_ms = pu(plan, "wait_ms", 0);
+    let wait_default = plan.get("wait_default").and_then(|v| v.as_bool()).unwrap_or(false);
     // forge only into sessions that are Running (their magic filter is armed for every endpoint)
     let forge_after_sync = forge.get("after_sync").and_then(|v| v.as_bool()).unwrap_or(false);
     // optional fixed set of (claimed) source addresses
@@ -287,7 +288,13 @@ pub fn run_plan<T: HCfg>(plan: &Value, detail: u8, emit: &mut dyn FnMut(&Value))
             for (i, (dp, h, at)) in discs.iter().enumerate() {
                 if !discs_done[i] && *dp == p && cur >= *at {
                     discs_done[i] = true;
-                    emit(&w.step(&json!({"a":"disc","p":p,"h":h})));
+                    // the same (peer, handle) listed again: the player is already disconnected by then
+                    let again = discs.iter().take(i).any(|(p2, h2, _)| *p2 == *dp && *h2 == *h);
+                    if again {
+                        emit(&w.step(&json!({"a":"disc","p":p,"h":h,"expect":["E:InvalidRequest"]})));
+                    } else {
+                        emit(&w.step(&json!({"a":"disc","p":p,"h":h})));
+                    }
                 }
             }
             let mut steps: Vec<Value> = Vec::new();
@@ -373,7 +380,7 @@ pub fn run_plan<T: HCfg>(plan: &Value, detail: u8, emit: &mut dyn FnMut(&Value))
                             heap.push(Reverse((t, sq, from, to, id)));
                         }
                     }
-                    steps.push(json!({"a":"tick","p":p,"in":ins,"wait":wait_ms,"arr":arr}));
+                    steps.push(json!({"a":"tick","p":p,"in":ins,"wait":wait_ms,"arr":arr,"wait_default":wait_default}));
                 } else {
                     steps.push(json!({"a":"tick","p":p,"in":ins}));
                 }
@@ -381,7 +388,20 @@ pub fn run_plan<T: HCfg>(plan: &Value, detail: u8, emit: &mut dyn FnMut(&Value))
                 steps.push(json!({"a":"tick","p":p}));
             }
             if p_stats > 0.0 && rng.gen::<f64>() < p_stats {
-                steps.push(json!({"a":"stats","p":p,"h": if w.peers[p].is_spec {0} else { (w.peers[p].locals[0]+1) % (pu(cfg,"players",2) as usize) }}));
+                // a remote player's handle, or (one time in three) the handle of one of this host's spectators
+                let np = pu(cfg, "players", 2) as usize;
+                let nspec_here = cfg["peers"]
+                    .as_array()
+                    .map(|a| a.iter().filter(|x| x["kind"] == "spec" && x["host"].as_u64() == Some(p as u64)).count())
+                    .unwrap_or(0);
+                let h = if w.peers[p].is_spec {
+                    0
+                } else if nspec_here > 0 && rng.gen_range(0..3) == 0 {
+                    np + rng.gen_range(0..nspec_here)
+                } else {
+                    (w.peers[p].locals[0] + 1) % np
+                };
+                steps.push(json!({"a":"stats","p":p,"h":h}));
             }
             if drain {
                 steps.push(json!({"a":"ev","p":p}));
